@@ -16,8 +16,9 @@ LEVEL_TEXT = ('Proved in Lean on the interpreter model: a define-slot region who
               'inside repeat/define/fill-slot, other templates, whole templates as macros) is judged on the implementation by rendering '
               'each generated (library, caller) pair and its hand-inlined METAL-free equivalent; the interpreter model is tied to the '
               'code by correspondence on the same-template pairs.')
-LEVEL_NOTE = ('Trusted: Lean kernel; the interpreter model; the harness\'s inliner (independent of Chameleon). Not in the model (oracle only): '
-              'macros of other templates and whole templates used as macros. Known findings: D-09a (an unused filler is picked up by a '
+LEVEL_NOTE = ('Trusted: Lean kernel; the interpreter model; the harness\'s inliner (independent of Chameleon). Macros of other templates '
+              '(lib.macros[...]) and whole templates used as macros are in the model since round 6 (library templates are compiled by the '
+              'same builder; a macro runs with the macros of the template it was written in: Frame.tid); `load:` is not. Known findings: D-09a (an unused filler is picked up by a '
               'macro used inside the macro\'s body that defines a slot of that name), D-09b (… or by a later sibling use), D-09d (tal:on-error '
               'and i18n:name written on the defining element are applied around the in-place rendering only: they are not part of the macro).')
 RULE = ('(library, caller) pairs from a METAL grammar: 1..3 macros with 0..3 slots (repeated slot names allowed), callers filling every subset '
@@ -322,6 +323,22 @@ def correspondence(ctx):
         g, lib, callers = make(ctx.rng)
         m, i = sources(g, lib, callers)
         cases.append({'src': m, 'vars': VARS, 'objs': []})
+    # macros of another template (`lib.macros['m']`) and a whole template used as a macro: the model compiles the other
+    # template too (its macros run with their own template's `macros`, error positions are looked up in its source)
+    for _ in range(ctx.budget(300, 10000)):
+        g, lib, callers = make(ctx.rng)
+        for c in callers:
+            mark_other(c)
+        libsrc = '<html>' + '\n'.join(metal(g, t, 'other') for t in lib) + '</html>'
+        csrc = '<html>' + '\n'.join(metal(g, t, 'other') for t in callers) + '</html>'
+        cases.append({'src': csrc, 'vars': VARS + [['lib', {'template': 1}]], 'objs': [], 'libs': [libsrc]})
+    for _ in range(ctx.budget(100, 3000)):
+        g = G(ctx.rng)
+        s1, s2 = g.fresh('s'), g.fresh('s')
+        whole = {'k': 'el', 'tag': 'html', 'attrs': [], 'kids': ['head ', g.slot(['u'], 0, s1), ' mid ${u} ', g.slot(['u'], 0, s2), ' end']}
+        fills = {s: {'k': 'el', 'tag': 'b', 'attrs': [], 'kids': ['F ${n}']} for s in (s1, s2) if ctx.rng.random() < 0.6}
+        csrc = '<x metal:use-macro="page">' + ''.join(metal(g, dict(f, attrs=[('metal:fill-slot', s)])) for s, f in fills.items()) + '</x>'
+        cases.append({'src': csrc, 'vars': VARS + [['page', {'template': 1}]], 'objs': [], 'libs': [metal(g, whole)]})
     for _ in range(ctx.budget(500, 15000)):
         g, lib, callers = make_shared(ctx.rng)
         m, i = sources(g, lib, callers)
